@@ -47,12 +47,68 @@ type PlainAll struct {
 	HolderID int
 }
 
+// Other shapes of the soft-delete model (same table content as softs):
+// SoftPtr  pointer-typed field, SoftEmb  field promoted from an embedded
+// gorm.Model-like struct, SoftPre  field inside an embedded struct with a
+// column prefix, SoftCol  field with a renamed column.
+type SoftPtr struct {
+	ID        int
+	A         *int
+	B         *int
+	S         *string
+	M         int
+	HolderID  int
+	DeletedAt *gorm.DeletedAt
+}
+
+type Base struct {
+	ID        int
+	DeletedAt gorm.DeletedAt
+}
+
+type SoftEmb struct {
+	Base
+	A        *int
+	B        *int
+	S        *string
+	M        int
+	HolderID int
+}
+
+type Meta struct {
+	DeletedAt gorm.DeletedAt
+}
+
+type SoftPre struct {
+	ID       int
+	A        *int
+	B        *int
+	S        *string
+	M        int
+	HolderID int
+	Meta     Meta `gorm:"embedded;embeddedPrefix:meta_"`
+}
+
+type SoftCol struct {
+	ID        int
+	A         *int
+	B         *int
+	S         *string
+	M         int
+	HolderID  int
+	DeletedAt gorm.DeletedAt `gorm:"column:removed_at"`
+}
+
 func (x Soft) key() int     { return x.ID }
 func (x Plain) key() int    { return x.ID }
 func (x PlainAll) key() int { return x.ID }
+func (x SoftPtr) key() int  { return x.ID }
+func (x SoftEmb) key() int  { return x.ID }
+func (x SoftPre) key() int  { return x.ID }
+func (x SoftCol) key() int  { return x.ID }
 
 type rowM interface {
-	Soft | Plain | PlainAll
+	Soft | Plain | PlainAll | SoftPtr | SoftEmb | SoftPre | SoftCol
 	key() int
 }
 
@@ -63,6 +119,10 @@ type Ref struct {
 	Soft     Soft     `gorm:"foreignKey:TargetID"`
 	Plain    Plain    `gorm:"foreignKey:TargetID"`
 	PlainAll PlainAll `gorm:"foreignKey:TargetID"`
+	SoftPtr  SoftPtr  `gorm:"foreignKey:TargetID"`
+	SoftEmb  SoftEmb  `gorm:"foreignKey:TargetID"`
+	SoftPre  SoftPre  `gorm:"foreignKey:TargetID"`
+	SoftCol  SoftCol  `gorm:"foreignKey:TargetID"`
 }
 
 // Holder has many rows of each of the three tables.
@@ -71,17 +131,32 @@ type Holder struct {
 	Softs     []Soft     `gorm:"foreignKey:HolderID"`
 	Plains    []Plain    `gorm:"foreignKey:HolderID"`
 	PlainAlls []PlainAll `gorm:"foreignKey:HolderID"`
+	SoftPtrs  []SoftPtr  `gorm:"foreignKey:HolderID"`
+	SoftEmbs  []SoftEmb  `gorm:"foreignKey:HolderID"`
+	SoftPres  []SoftPre  `gorm:"foreignKey:HolderID"`
+	SoftCols  []SoftCol  `gorm:"foreignKey:HolderID"`
 }
 
 const (
 	vSoft = iota
 	vPlain
 	vPlainAll
+	vSoftPtr
+	vSoftEmb
+	vSoftPre
+	vSoftCol
+	nVariants
 )
 
-var vTable = []string{"softs", "plains", "plain_alls"}
-var vName = []string{"Soft", "Plain", "PlainAll"}
-var vMany = []string{"Softs", "Plains", "PlainAlls"}
+var vTable = []string{"softs", "plains", "plain_alls", "soft_ptrs", "soft_embs", "soft_pres", "soft_cols"}
+var vName = []string{"Soft", "Plain", "PlainAll", "SoftPtr", "SoftEmb", "SoftPre", "SoftCol"}
+var vMany = []string{"Softs", "Plains", "PlainAlls", "SoftPtrs", "SoftEmbs", "SoftPres", "SoftCols"}
+
+// vDelCol: the column that carries the soft-delete mark ("" = plain model)
+var vDelCol = []string{"deleted_at", "", "", "deleted_at", "deleted_at", "meta_deleted_at", "removed_at"}
+var shapeName = map[int]string{0: "value field", vSoftPtr: "pointer field *gorm.DeletedAt", vSoftEmb: "field promoted from an embedded struct", vSoftPre: "embedded struct with embeddedPrefix:meta_", vSoftCol: "column:removed_at"}
+
+func isSoft(v int) bool { return v == vSoft || v >= vSoftPtr }
 
 const twinOffset = 100
 const deletedStamp = "2019-01-01 00:00:00+00:00"
@@ -103,12 +178,16 @@ const schemaSQL = `
 CREATE TABLE softs (id integer primary key, a integer, b integer, s text, m integer not null default 0, holder_id integer, deleted_at datetime);
 CREATE TABLE plains (id integer primary key, a integer, b integer, s text, m integer not null default 0, holder_id integer);
 CREATE TABLE plain_alls (id integer primary key, a integer, b integer, s text, m integer not null default 0, holder_id integer);
+CREATE TABLE soft_ptrs (id integer primary key, a integer, b integer, s text, m integer not null default 0, holder_id integer, deleted_at datetime);
+CREATE TABLE soft_embs (id integer primary key, a integer, b integer, s text, m integer not null default 0, holder_id integer, deleted_at datetime);
+CREATE TABLE soft_pres (id integer primary key, a integer, b integer, s text, m integer not null default 0, holder_id integer, meta_deleted_at datetime);
+CREATE TABLE soft_cols (id integer primary key, a integer, b integer, s text, m integer not null default 0, holder_id integer, removed_at datetime);
 CREATE TABLE refs (id integer primary key, target_id integer);
 CREATE TABLE holders (id integer primary key);
 `
 
 func seed(e *h.Env) {
-	for _, t := range []string{"softs", "plains", "plain_alls", "refs", "holders"} {
+	for _, t := range []string{"softs", "plains", "plain_alls", "soft_ptrs", "soft_embs", "soft_pres", "soft_cols", "refs", "holders"} {
 		e.MustExec("DELETE FROM " + t)
 	}
 	for _, r := range all54 {
@@ -116,7 +195,11 @@ func seed(e *h.Env) {
 		if r.ID > twinOffset {
 			del = deletedStamp
 		}
-		e.MustExec("INSERT INTO softs (id,a,b,s,m,holder_id,deleted_at) VALUES (?,?,?,?,0,?,?)", r.ID, r.A, r.B, r.S, holderOf(r.ID), del)
+		for v := 0; v < nVariants; v++ {
+			if vDelCol[v] != "" {
+				e.MustExec("INSERT INTO "+vTable[v]+" (id,a,b,s,m,holder_id,"+vDelCol[v]+") VALUES (?,?,?,?,0,?,?)", r.ID, r.A, r.B, r.S, holderOf(r.ID), del)
+			}
+		}
 		e.MustExec("INSERT INTO plain_alls (id,a,b,s,m,holder_id) VALUES (?,?,?,?,0,?)", r.ID, r.A, r.B, r.S, holderOf(r.ID))
 		if r.ID < twinOffset {
 			e.MustExec("INSERT INTO plains (id,a,b,s,m,holder_id) VALUES (?,?,?,?,0,?)", r.ID, r.A, r.B, r.S, holderOf(r.ID))
@@ -134,6 +217,11 @@ type queryer interface {
 
 // snapshot reads a whole table, bypassing gorm: id -> canonical row text.
 func snapshot(q queryer, table string) (map[int]string, error) {
+	return snapshotDel(q, table, "deleted_at")
+}
+
+// snapshotDel: delCol is reported under the canonical name deleted_at.
+func snapshotDel(q queryer, table, delCol string) (map[int]string, error) {
 	rows, err := q.QueryContext(context.Background(), "SELECT * FROM "+table)
 	if err != nil {
 		return nil, err
@@ -158,6 +246,9 @@ func snapshot(q queryer, table string) (map[int]string, error) {
 				case int64:
 					id = int(t)
 				}
+			}
+			if c == delCol && delCol != "" {
+				c = "deleted_at"
 			}
 			fmt.Fprintf(&sb, "%s=%v|", c, vals[i])
 		}
